@@ -23,7 +23,11 @@ ASSUMPTIONS = ["reference self-tests passed", "forcing an outcome never changes 
 
 
 def strategy(tier):
-    return S.program_case(["measure", "measure", "measure", "op"], max_steps=3)
+    from hypothesis import strategies as st
+
+    hist = ["measure", "measure", "measure", "op", "kraus", "struct", "comp", "resize"]
+    return st.one_of(S.program_case(["measure", "measure", "measure", "op"], max_steps=3), S.program_case(hist, max_steps=5, min_steps=2),
+                     S.lifecycle_case(tail_kinds=("measure", "measure", "resize", "op"), max_tail=3))
 
 
 def run_case(case):
